@@ -682,6 +682,18 @@ func checkMixedNBT(c *vm.Ctx, r *vm.Rand) {
 	if !feats["s"] || !feats["c"] {
 		return
 	}
+	// the fields next to a translation are independent of it: a literal text, styles, extras
+	if r.Intn(3) == 0 {
+		m.Text = genStr(r) + "t"
+		c.Cover("nbt.mixed-arguments.with-text")
+	}
+	if r.Intn(4) == 0 {
+		m.Bold, m.Color = true, colorPool[r.Intn(len(colorPool))]
+	}
+	if r.Intn(4) == 0 {
+		m.Extra = []chat.Message{{Text: genStr(r) + "e"}}
+		c.Cover("nbt.mixed-arguments.with-extra")
+	}
 	js, _ := json.Marshal(m)
 	wit := func() any { return map[string]any{"component_json": short(string(js))} }
 	var buf bytes.Buffer
